@@ -19,9 +19,9 @@ from tools.vlib import Outcome, sx
 from tools.props import c13_gen as G
 
 MANIFEST = {
-    "level_text": "Coq theorems (Properties/C13.v, no axioms) about an executable skeleton of the pipeline in which every hash-based collection (AstCache, used_structs, the requested type set, every dependency set, resolved_types, dependencies) is a list in an explicit, universally quantified order omega which the code sorts by name before use: for all omega and omega' the declarations of every generated file and of the two visualisation files are the same lists (C13_order_independent, C13_viz_independent, via isort_perm_invariant); added noise items change nothing and a noise-only file changes at most the order (C13_noise, C13_noise_file); redistributing items over files changes at most the order of declarations when no type name is defined twice and no event name is emitted with two payload types (C13_move), and both exceptions are exhibited by computed witnesses (C13_move_dupdef_refuted, C13_move_dupevent_refuted). Tied to the code on every run: each generated project is run through the real binary in 8 (quick) / 32 (thorough) fresh processes with and without --verbose / --visualize-deps and under noise / reorder / move / split / merge transformations; files are compared byte for byte and through the extracted module parser; the model must reproduce the declaration order of every file of every run.",
+    "level_text": "Coq theorems (Properties/C13.v, 10, no axioms) about an executable skeleton of the pipeline in which every hash-based collection (AstCache, used_structs, the requested type set, every dependency set, resolved_types, dependencies) is a list in an explicit, universally quantified order omega which the code sorts by name before use, and in which a declaration carries its content as a function of the source item (field / variant / parameter / channel names in order, an id for the rest of a definition, the payload type of a listener): for all omega, omega' the declarations of every generated file and the content of the two visualisation files (entry points, types with depends-on lists, dependency chains, nodes, edges) are the same lists (C13_order_independent, C13_viz_independent, via isort_perm_invariant); the bindings are the same for all flags and the graph files appear exactly with --visualize-deps (C13_flags); added noise items change nothing and a noise-only file changes at most the order (C13_noise, C13_noise_file); any sequence of source transformations - reorder items of a file, move an item, split a file, merge files, relist, rename (inductive tstep/tsteps) - changes at most the order of declarations, never their content or the set, when no type name is defined twice and no event name is emitted with two payload types (C13_transformations, C13_move), and both exceptions are exhibited by computed witnesses (C13_move_dupdef_refuted, C13_move_dupevent_refuted); the run-time oracle rel on two versions of a file decides exactly same item list / same multiset / different multisets / unparsed (C13_oracle_exact). Tied to the code on every run: each generated project is run through the real binary in 8 (quick) / 32 (thorough) fresh processes with and without --verbose / --visualize-deps and under noise / reorder / move / split / merge transformations; files are compared byte for byte and through the extracted module parser; the model must reproduce, for every run, the declarations of every file in order with their member keys and listener payload types, and the lists of both graph files.",
     "design_ref": "DESIGN.md section 5 C13",
-    "level_note": "The skeleton abstracts declaration content to (name, body id / payload id): byte-level content determinism is established by the differential run only (fresh processes are what would expose a regression of the sorting). Comments and whitespace are below the model's input (covered by the run). The order of names in the model is numeric; the python side numbers paths in PathBuf (component-wise) order and names in byte order so that it coincides with the code's sort.",
+    "level_note": "Not proved / outside the model: the TypeScript text of member types and bodies (the id t_body, e_pay stand for it; byte-level equality is established by the differential run in fresh processes, which is also what would expose a regression of the sorting); comments, whitespace and --verbose output (below the model's input; run only); C13_noise_file is a same-multiset statement (equality would need a monotonicity lemma for ranks under insertion into the sorted path list); C13_oracle_exact speaks about the printed item lists (sx_show of Spec/TsObs.sx_item; injectivity of that printer is not proved, so 'same items' means equal canonical prints). The order of names in the model is numeric; the python side numbers paths in PathBuf (component-wise) order and names in byte order so that it coincides with the code's sort.",
     "technique": "Rocq/Coq proof over hand-written model + correspondence check (extracted OCaml vs the real CLI binary in fresh processes)"
 }
 
@@ -56,8 +56,14 @@ def pascal(s):
 
 # ----------------------------------------------------------------------------- observation of one run
 
+def camel(s):
+    w = [x for x in s.split("_") if x]
+    return (w[0] + "".join(x[:1].upper() + x[1:] for x in w[1:])) if w else s
+
+
 def norm_labels(parsed, sk):
-    """labels s-expression (from c13-labels) -> list of tuples, imports dropped; None if unparsed"""
+    """labels s-expression (from c13-labels) -> list of tuples, imports dropped; None if unparsed.
+    Interfaces and object schemas carry their member keys in order."""
     if not parsed:
         return None
     out = []
@@ -66,14 +72,9 @@ def norm_labels(parsed, sk):
         if k == "import":
             continue
         if k in ("interface", "const"):
-            marker = None
-            for key in l[2]:
-                if key.replace("_", "").lower().startswith("from") and key.replace("_", "").lower()[4:].isdigit():
-                    marker = int(key.replace("_", "").lower()[4:])
-                    break
-            out.append((k, l[1], marker))
+            out.append((k, l[1], tuple(l[2])))
         elif k == "type":
-            out.append(("type", l[1], None))
+            out.append(("type", l[1], ()))
         elif k in ("wrapper", "listener"):
             out.append((k, l[2]))
         elif k == "reexport":
@@ -83,24 +84,11 @@ def norm_labels(parsed, sk):
     return out
 
 
-def marker_of(item):
-    f = item.get("fields") or []
-    if f and f[0]["name"].startswith("from_"):
-        return int(f[0]["name"][5:])
-    return None
-
-
 def expected_labels(out, sk, zod):
     """model output (parsed s-expression of c13-gen, one output) -> {file: [label tuples]}"""
     if not out:
         return None
     ty, cm, ev, ix = out[0]
-    flags = {}
-    for _, items in sk.project:
-        for it in items:
-            if it[0] == "cmd":
-                flags[it[1]] = (it[3], it[4])
-    dupn = set(sk.dup_names())
 
     def tname(n):
         return sk.tys[int(n) - 1]
@@ -108,29 +96,34 @@ def expected_labels(out, sk, zod):
     def cname(c):
         return sk.cmds[int(c) - 1]
 
+    def keys(ms, conv=lambda x: x):
+        return tuple(conv(sk.members[int(m) - 1]) for m in ms)
+
     res = {"types.ts": [], "commands.ts": [], "index.ts": []}
     for d in ty:
         k = d[0]
         if k in ("type", "schema"):
             item = sk.bodies[int(d[2])][1]
-            mk = marker_of(item) if tname(d[1]) in dupn else None
+            enum = item["kind"] == "enum"
             if k == "type":
-                res["types.ts"].append(("type" if item["kind"] == "enum" else "interface", tname(d[1]), None if item["kind"] == "enum" else mk))
+                res["types.ts"].append(("type", tname(d[1]), ()) if enum else ("interface", tname(d[1]), keys(d[3])))
             else:
-                res["types.ts"].append(("const", tname(d[1]) + "Schema", None if item["kind"] == "enum" else mk))
+                res["types.ts"].append(("const", tname(d[1]) + "Schema", () if enum else keys(d[3])))
         elif k == "infer":
-            res["types.ts"].append(("type", tname(d[1]), None))
+            res["types.ts"].append(("type", tname(d[1]), ()))
         elif k == "params":
-            hp, hc = flags[int(d[1])]
-            if zod and hp and not hc:
-                res["types.ts"].append(("type", pascal(cname(d[1])) + "Params", None))
+            ps, cs = d[2], d[3]
+            if zod and ps and not cs:
+                res["types.ts"].append(("type", pascal(cname(d[1])) + "Params", ()))
+            elif zod:
+                res["types.ts"].append(("interface", pascal(cname(d[1])) + "Params", keys(cs, camel)))
             else:
-                res["types.ts"].append(("interface", pascal(cname(d[1])) + "Params", None))
+                res["types.ts"].append(("interface", pascal(cname(d[1])) + "Params", keys(ps, camel) + keys(cs, camel)))
         elif k == "pschema":
-            res["types.ts"].append(("const", pascal(cname(d[1])) + "ParamsSchema", None))
+            res["types.ts"].append(("const", pascal(cname(d[1])) + "ParamsSchema", keys(d[2], camel)))
     for d in cm:
         if d[0] == "hooks":
-            res["commands.ts"].append(("interface", "CommandHooks", None))
+            res["commands.ts"].append(("interface", "CommandHooks", ("onValidationError", "onInvokeError", "onSuccess", "onSettled")))
         else:
             res["commands.ts"].append(("wrapper", cname(d[1])))
     if ev:
@@ -139,19 +132,6 @@ def expected_labels(out, sk, zod):
     for d in ix:
         res["index.ts"].append(("reexport", ["./types", "./commands", "./events"][int(d[1])]))
     return res
-
-
-def strip_markers(labels, sk):
-    """observed labels: keep the from_k marker only on types defined more than once"""
-    dupn = set(sk.dup_names())
-    out = []
-    for l in labels:
-        if l[0] in ("interface", "const") and l[2] is not None:
-            base = l[1][:-6] if l[0] == "const" and l[1].endswith("Schema") else l[1]
-            if base not in dupn:
-                l = (l[0], l[1], None)
-        out.append(l)
-    return out
 
 
 def parse_viz(txt, dot):
@@ -170,6 +150,15 @@ def parse_viz(txt, dot):
             types.append([line[2:].split(" (")[0], []])
         elif sect == "types" and "depends on: " in line and types:
             types[-1][1] = [x.strip() for x in line.split("depends on: ", 1)[1].split(",")]
+    chains, sect = [], None
+    for line in txt.split("\n"):
+        if "Dependency Chains" in line:
+            sect = "chains"
+        elif "Summary:" in line and "\u251c\u2500 " not in line:
+            sect = None
+        elif sect == "chains" and "\u251c\u2500 " in line:
+            ind, nm = line.split("\u251c\u2500 ", 1)
+            chains.append((len(ind) // 2, nm.strip()))
     nodes, edges, dcmds = [], [], []
     for line in dot.split("\n"):
         m = re.match(r'\s*"([^"]*)" \[color=green\];', line)
@@ -181,7 +170,7 @@ def parse_viz(txt, dot):
         m = re.match(r'\s*"([^"]*)" -> "([^"]*)";', line)
         if m:
             edges.append((m.group(1), m.group(2)))
-    return {"cmds": cmds, "types": types, "nodes": nodes, "edges": edges, "dot_cmds": dcmds}
+    return {"cmds": cmds, "types": types, "nodes": nodes, "edges": edges, "dot_cmds": dcmds, "chains": chains}
 
 
 class Run:
@@ -240,7 +229,7 @@ def evaluate(groups, tier):
         for f in TS:
             if f in r.res["files"]:
                 nl = norm_labels(lab[r.res["files"][f]], r.sk)
-                r.labels[f] = strip_markers(nl, r.sk) if nl is not None else None
+                r.labels[f] = nl
         if r.labels.get("events.ts") is not None:
             pay = dict((n, t) for t, n in re.findall(r"listen<types\.(\w+)>\('([^']*)'", r.res["files"]["events.ts"]))
             r.labels["events.ts"] = [(l[0], l[1], pay.get(l[1]) if pay.get(l[1]) in r.sk.tid else None) if l[0] == "listener" else l
@@ -292,6 +281,8 @@ def evaluate(groups, tier):
             r.corr, r.why = False, "visualisation: dot nodes %s vs model %s" % (v["nodes"], m_nodes)
         elif m_edges != v["edges"]:
             r.corr, r.why = False, "visualisation: dot edges %s vs model %s" % (v["edges"], m_edges)
+        elif [(int(c[0]), sk.tys[int(c[1]) - 1]) for c in o[4]] != v["chains"]:
+            r.corr, r.why = False, "visualisation: dependency chains %s vs model %s" % (v["chains"], o[4])
     # 3. classes
     sks = []
     for g in groups:
